@@ -134,5 +134,6 @@ def run(ctx):
     ctx.undecided = ("most of the property: equality of packages across participants, shares lying on the summed "
                      "polynomial, signing afterwards (agreement between runs is not a structural fact).")
     ctx.floor = 13 if ctx.core_only else 14
+    wrappers(ctx, ['keys::dkg::part1', 'keys::dkg::part2', 'keys::dkg::part3'])
     part3_wiring(ctx)
     helpers(ctx)
